@@ -101,6 +101,41 @@ class Ctx:
             if x not in self.trusted:
                 self.trusted.append(x)
 
+    def complement(self, rid: str, fn, decided: bool, demote: bool = False, by: str = "the evaluated rule"):
+        """Run a structural rule `fn` as a complement of an evaluated rule that speaks about the same behaviour.
+        decided=False: the structural rule decides (errors and findings count).  decided=True (the evaluated rule ran on all
+        its scenarios and passed): a form the structural rule cannot read is informational, and with demote=True its findings
+        are too (the rule is a proxy that met an unfamiliar but correct form)."""
+        if not decided:
+            return fn()
+        mark = len(self.violations)
+        marks = {r: len(l) for r, l in self.instances.items()}
+        try:
+            fn()
+        except AnalysisError as e:
+            self.info(f"{rid}: not applicable to this form of the code ({str(e)[:200]}); {by} decides")
+            self.floors.pop(rid, None)
+            self.rules.setdefault(rid, f"structural complement of {by}")
+            for r, l in self.instances.items():
+                if r == rid:
+                    del l[marks.get(r, 0):]
+            del self.violations[mark:]
+            return None
+        new = self.violations[mark:]
+        if demote and new:
+            for v in new:
+                self.info(f"{v.rule} (structural) would report {v.key} at {v.site}; contradicted by {by}, which passed on all its scenarios")
+                for inst in self.instances.get(v.rule, []):
+                    if inst.get("what") == v.key and inst.get("verdict") == "violation":
+                        inst["verdict"] = f"not reported (decided by {by})"
+                self.floors.pop(v.rule, None)
+            del self.violations[mark:]
+        # a complement that recognised fewer instances than its floor is not an error when the evaluated rule decided
+        if rid in self.floors and self.count(rid) < self.floors[rid]:
+            self.info(f"{rid}: {self.count(rid)} instance(s) recognised in this form of the code (floor {self.floors[rid]}); {by} decides")
+            self.floors.pop(rid, None)
+        return None
+
     def count(self, rid: str) -> int:
         return len(self.instances.get(rid, []))
 
